@@ -17,7 +17,7 @@ use neurons::tensor::Tensor;
 pub fn meta(ctx: &Ctx) -> Meta {
     let t = ctx.tier.thorough();
     Meta {
-        rule: format!("(a) single layers through their public backward(): {} of the lattice L for convolution, deconvolution, max-pool (linear activation; ring x E5), dense n,m in 1..4 x E5 x bias, input and upstream gradient given flat or as CxHxW, the ring of <= 1 deviation also on inputs with exact zeros: weight/kernel, bias and INPUT gradient vs the dual-number derivative of sum_k g_k*out_k. (a') a LARGE-VALUE ring (kernel 5,7; stride 3,4; padding 3; dilation 3; 4,8 channels; 8,16 filters; planes 12x13, 28x32) with <= 1 (thorough 2) deviations, HEAVY layers (3 channels, 8 filters, 24x30 plane: >= 64k multiply-adds; quick: the stride and dilation deviations of convolution and deconvolution, thorough: every single deviation of kernel / stride / padding / dilation per axis for all three kinds), wide dense layers (33, 65x64, 100, 241) alone and stacked; max-pool windows (7 kernel/stride settings) over pairwise distinct EXTREME finite values f32::MIN .. f32::MAX in every rotation, exact routing oracle. (b) networks: every layer sequence of <= {} tokens over 5 input shapes with <= {} deviations x 7 objectives (cycled), through Network::backward, through one learn() step with SGD (parameter change = -lr*gradient), and through Network::backward again on the trained network (all networks with a feedback block, a quarter of the others); soft-max head of width 2,3,5 under cross-entropy on every sequence of <= {} tokens, and soft-max OUTPUT LAYERS that are convolutions / deconvolutions: derivative of CE(softmax(z)); networks also built a second way, through placeholder activations and set_activation. Data re-drawn until every ReLU pre-activation and pool runner-up is >= 0.1 from a kink/tie. Non-trivial = case whose reference gradient has >= 2 distinct non-zero entries",
+        rule: format!("(a) single layers through their public backward(): {} of the lattice L for convolution, deconvolution, max-pool (linear activation; ring x E5), dense n,m in 1..4 x E5 x bias, input and upstream gradient given flat or as CxHxW, the ring of <= 1 deviation also on inputs with exact zeros: weight/kernel, bias and INPUT gradient vs the dual-number derivative of sum_k g_k*out_k. (a') a LARGE-VALUE ring (kernel 5,7; stride 3,4; padding 3; dilation 3; 4,8 channels; 8,16 filters; planes 12x13, 28x32) with <= 1 (thorough 2) deviations, HEAVY layers (3 channels, 8 filters, 24x30 plane: >= 64k multiply-adds; quick: the stride and dilation deviations of convolution and deconvolution, thorough: every single deviation of kernel / stride / padding / dilation per axis for all three kinds), wide dense layers (33, 65x64, 100, 241) alone and stacked; LONG kernels (9, 16, 17 taps on one axis) x dilation 1..3 x stride 1..2 for convolution (deconvolution without dilation) between a 1x1 convolution and a dense head; max-pool windows (7 kernel/stride settings) over pairwise distinct EXTREME finite values f32::MIN .. f32::MAX in every rotation, exact routing oracle. (b) networks: every layer sequence of <= {} tokens over 5 input shapes with <= {} deviations x 7 objectives (cycled), through Network::backward, through one learn() step with SGD (parameter change = -lr*gradient), and through Network::backward again on the trained network (all networks with a feedback block, a quarter of the others); soft-max head of width 2,3,5 under cross-entropy on every sequence of <= {} tokens, and soft-max OUTPUT LAYERS that are convolutions / deconvolutions: derivative of CE(softmax(z)); networks also built a second way, through placeholder activations and set_activation. Data re-drawn until every ReLU pre-activation and pool runner-up is >= 0.1 from a kink/tie. Non-trivial = case whose reference gradient has >= 2 distinct non-zero entries",
             if t { "the FULL lattice" } else { "the ring of <= 2 deviations" }, if t { 3 } else { 2 }, if t { 2 } else { 1 }, if t { 2 } else { 1 }),
         bound: "kernel <= 3, stride <= 2(3), padding <= 2, dilation <= 2, planes <= 6x7, depth <= 3 (+ soft-max head)".into(),
         exhaustive: true,
@@ -726,6 +726,30 @@ pub fn cases(ctx: &Ctx) -> Vec<Kv> {
     for (kh, kw, sh, sw) in [(1usize, 1usize, 1usize, 1usize), (1, 2, 1, 1), (2, 1, 1, 2), (2, 2, 1, 1), (2, 2, 2, 2), (3, 3, 1, 1), (1, 1, 2, 2)] {
         for rot in 0..12 {
             out.push(Kv::new().put("kind", "poolx").put("kh", kh).put("kw", kw).put("sh", sh).put("sw", sw).put("rot", rot));
+        }
+    }
+    // LONG kernels (9, 16, 17 taps on one axis) x dilation 1..3 x stride 1..2 behind a 1x1 convolution (so that the long
+    // layer's INPUT gradient matters) and in front of a dense head: a product of two large dimensions (see C02)
+    for axis in 0..2usize {
+        let ax = |long: usize, short: usize| if axis == 0 { (long, short) } else { (short, long) };
+        let pre = L::Conv { f: 2, k: (1, 1), s: (1, 1), p: (0, 0), d: (1, 1), act: Act::Linear, drop: None };
+        let head = L::Dense { n: 2, act: Act::Linear, bias: true, drop: None };
+        for k in [9usize, 16, 17] {
+            for s in 1..=2usize {
+                for d in 1..=3usize {
+                    let extent = d * (k - 1) + 4;
+                    let long = L::Conv { f: 2, k: ax(k, 2), s: ax(s, 1), p: (0, 0), d: ax(d, 1), act: Act::Linear, drop: None };
+                    let net = Net::new(Dims::Chw(1, ax(extent, 3).0, ax(extent, 3).1), vec![pre.clone(), long, head.clone()]);
+                    if ref_shapes(&net).is_ok() {
+                        out.push(Kv::new().put("kind", "net").put("net", net.name()).put("obj", "MSE"));
+                    }
+                }
+                let long = L::Deconv { f: 2, k: ax(k, 2), s: ax(s, 1), p: (0, 0), act: Act::Linear, drop: None };
+                let net = Net::new(Dims::Chw(1, ax(4, 3).0, ax(4, 3).1), vec![pre.clone(), long, head.clone()]);
+                if ref_shapes(&net).is_ok() {
+                    out.push(Kv::new().put("kind", "net").put("net", net.name()).put("obj", "MSE"));
+                }
+            }
         }
     }
     // wide dense layers, alone and behind another layer (the input gradient of the second one matters)
